@@ -1231,7 +1231,7 @@ class Interp:
         g['seq'] the iterable (anything with seq_len()/elem()); the variant is seq_len - i by construction."""
         run = self.run
         name = f'{self.fullname(fr.fn)}#loop{getattr(s, "_ordinal", "")}'
-        env = fr.locals
+        env = EnvView(fr) if fr.nonlocals else fr.locals
         is_for = isinstance(s, (ast.For, ast.AsyncFor))
         g = {}
         set_proto = is_for and getattr(iterable, 'set_protocol', False)
@@ -1282,7 +1282,7 @@ class Interp:
             v0 = spec.var(self, env, g) if spec.var else None
             # ghost state of the loops whose body is being executed (for postconditions of a return from inside a loop)
             fr.locals['__active_loop_ghosts__'] = {**fr.locals.get('__active_loop_ghosts__', {}), getattr(s, '_ordinal', 0): g}
-            pre_env = dict(env)
+            pre_env = env.snapshot() if isinstance(env, EnvView) else dict(env)
             try:
                 self.exec_block(s.body, fr)
             except ContinueSig:
@@ -1317,7 +1317,7 @@ class Interp:
         """`for k, v in m.items()` / `for k in m.keys()` over a symbolic map: arbitrary order; ghost g['visited'] is the
         set of keys already handled; the loop ends when every key of the map (as it was at the loop head) was visited"""
         from .symseq import KeyTok, BOOLROW
-        run, env = self.run, fr.locals
+        run, env = self.run, (EnvView(fr) if fr.nonlocals else fr.locals)
         m = items.m
         dom0 = m.dom
         g = {'map': m, 'dom': dom0, 'visited': z3.K(INT, z3.BoolVal(False))}
@@ -1345,7 +1345,7 @@ class Interp:
                 self.assign_target(s.target, (key, cur.lookup(key)), fr)
             else:
                 self.assign_target(s.target, key, fr)
-            pre_env = dict(env)
+            pre_env = env.snapshot() if isinstance(env, EnvView) else dict(env)
             try:
                 self.exec_block(s.body, fr)
             except ContinueSig:
